@@ -5,7 +5,7 @@ HERE = os.path.dirname(os.path.abspath(__file__))
 
 CHECKS = {
  "C01": dict(
-    technique="interval-discharged zone analysis, dominating-guard + who-may-construct queries, layout/trait facts from rustc, call-graph SCC recognisers, purity census with pointer-cast value flow, explicit-panic inventory",
+    technique="interval/relational abstract interpretation of MIR (zone discharge and whole-crate panic-site census against a baseline), inferred struct-field invariants, path-sensitive iterator-progress typestate, dominating-guard + who-may-construct queries, layout/trait facts from rustc, call-graph SCC recognisers, purity census with pointer-cast value flow, explicit-panic inventory",
     design_ref="DESIGN.md §4 C01",
     text="Claimed in part. Decides: (a) in the core reader modules every arithmetic/bounds Assert is discharged for all inputs "
          "and no panicking call exists; (b) a TableRef can only come out of Cursor::finish after check_in_bounds(pos)? or be "
@@ -14,12 +14,17 @@ CHECKS = {
          "has size == RAW_BYTE_LEN; (e) every call-graph cycle in read-fonts is depth-bounded (stack-overflow clause); (f) "
          "read-fonts has no unsafe code, no mutable/interior-mutable statics, no time/env/random/thread observation and every "
          "pointer-to-integer cast feeds only address differences (purity for every call, thread and address); (g) the explicit "
-         "unwrap/expect/panic! inventory of hand-written readers equals the confirmed 39 sites. Not decided: overflow/bounds "
-         "sites in hand-written table helpers outside the core zone, loop termination, the linear-time clause.",
+         "unwrap/expect/panic! inventory of hand-written readers equals the confirmed 39 sites; (h) census of every indexing / "
+         "slicing / split / copy / division site in hand-written font-types and read-fonts code: each is proved safe for every "
+         "input by the interval analysis (guards, lengths, struct-field invariants inferred on every run) or is on the baseline of "
+         "sites that existed on the pinned tree (listed per function as confirmed or untriaged = not claimed) -- a new unproven "
+         "site, or the loss of a guard that made one provable, is a violation; (i) every hand-written Iterator::next mutates the "
+         "iterator on every path that yields Some (an iterator that can yield without progress never terminates). Not decided: "
+         "the baseline's untriaged sites, termination of loops other than through (i), the linear-time clause.",
     note="Trusted: rustc layout/MIR, bytemuck's own checks, confirmed per-function reasons in rules/confirmed_panics_read_fonts.json (read by hand). C01-d (generated shape agreement) is reported under C04's engine when built.",
  ),
  "C02": dict(
-    technique="call-graph SCC recognisers, who-may-write-a-field queries, dominating-guard / must-pass-through path rules, result-fate queries, explicit-panic inventory",
+    technique="call-graph SCC recognisers, who-may-write-a-field queries with interval bounds, dominating-guard / must-pass-through path rules, result-fate queries, explicit-panic inventory, panic-site census by interval/relational abstract interpretation with inferred field invariants, iterator-progress typestate",
     design_ref="DESIGN.md §4 C02",
     text="Claimed in part. Decides: no unsafe code in skrifa / IFT; every call-graph cycle in skrifa, IFT, the brotli wrapper and "
          "the read-fonts code they reach is depth bounded (composites, paint graphs, charstring subroutines, GSUB nesting, IFT entry "
@@ -28,8 +33,12 @@ CHECKS = {
          "leaves for good once MAX_RUN_INSTRUCTIONS is exceeded (runaway-program clause); a too-small scratch buffer becomes "
          "InsufficientMemory and alloc_slice splits only after testing the re-aligned buffer's length; decode results are "
          "propagated with the patch's own size cap and the sparse-bit-set height guard dominates node decoding; the explicit "
-         "unwrap/expect/panic! inventory equals the confirmed 35 sites. One genuine defect is a known finding (F5). Not decided: "
-         "bounds/overflow sites outside these rules, loop termination in CFF/autohint code, non-finite floats.",
+         "unwrap/expect/panic! inventory equals the confirmed 35 sites; every value ever stored into the interpreter's loop counter "
+         "is at most 0xFFFF (looped instructions run inside one dispatch, outside every budget); census of every indexing / "
+         "slicing / split / copy / division site in skrifa, IFT and the brotli wrapper against the baseline (as C01-h: proved, or "
+         "listed as existing on the pinned tree and not claimed; anything new is a violation); every hand-written Iterator::next "
+         "makes progress on every yielding path. One genuine defect is a known finding (F5). Not decided: the baseline's untriaged "
+         "sites (scaler buffer slicing, autohinter and CFF hinter indexing), loop termination in CFF/autohint code, non-finite floats.",
     note="Trusted: rustc MIR, call-graph construction (A-CB), confirmed per-function reasons in rules/confirmed_panics_client.json, the brotli FFI.",
  ),
  "C04": dict(
@@ -58,14 +67,16 @@ CHECKS = {
     note="Trusted: rustc MIR, fact dumper, explorer. The overflow predicate itself (max_value(len) < child.pos - parent.pos) is taken as the definition of 'fits'.",
  ),
  "C06": dict(
-    technique="dominating-guard analysis (loop aware), ADT field-type query, sort-key closure inspection",
+    technique="dominating-guard analysis (loop aware), ADT field-type query, sort-key closure inspection, def-use shape of the directory-record arguments",
     design_ref="DESIGN.md §4 C06",
     text="Decides: copy_missing_tables inserts only under the not-present edge of tables.contains_key(tag) for the same tag (a "
          "supplied table is never overridden, whatever its length); FontBuilder.tables is BTreeMap<Tag,_>, directory records are "
          "sorted by record.tag before TableDirectory::from_table_records and nothing is pushed afterwards; ordered_tags' sort "
          "key ends in the tag itself (total order => result independent of insertion order); every constant-range slice of table "
-         "bytes in build() is dominated by a covering length test (head shorter than 12 bytes cannot panic). Padding, checksum and "
-         "0xB1B0AFBA arithmetic and directory offsets are value level and not decided.",
+         "bytes in build() is dominated by a covering length test (head shorter than 12 bytes cannot panic); supplied bytes are "
+         "altered (Cow::to_mut) or emitted piecewise only under the guard tag == 'head' (every other table comes back byte for "
+         "byte); each directory record is built from the tag, checksum_and_padding(data), the running position accumulator and "
+         "data.len() with no case-dependent offset. Padding, checksum and 0xB1B0AFBA arithmetic are value level and not decided.",
     note="Trusted: rustc MIR, fact dumper. The reader side (FontRef::table_data binary search) is covered by C01's core-zone rules only.",
  ),
  "C07": dict(
@@ -75,8 +86,10 @@ CHECKS = {
          "the 64-bit object counter; ObjectId's integer is produced only by fetch_add in ObjectId::next and read only by derived "
          "Ord/Eq/Hash (a finite set of orderings identical in every run and under every interleaving); every iteration over a "
          "RandomState-hashed container or a hashed container keyed by ObjectId ends in an order-insensitive consumer (22 sites "
-         "classified; 11 by confirmed reason); no time/env/random/thread-id calls; every pointer-to-integer cast flows only into "
-         "address differences, alignment masks or unread fields. Holds for every hash seed, thread interleaving and prior history.",
+         "classified; 11 by confirmed reason); no time/env/random/thread-id calls and no split/test by memory-address alignment "
+         "(align_to, pod_align_to, align_offset) in the compilers or the reader crates they call; every pointer-to-integer cast "
+         "flows only into address differences, alignment masks or unread fields. Holds for every hash seed, thread interleaving, "
+         "prior history and placement of the input bytes.",
     note="Trusted: dependencies' determinism (std, indexmap, kurbo, log); sort-key totality at the two sorted-vec sites; confirmed reasons were read by hand and are keyed per function.",
  ),
  "C08": dict(
@@ -90,27 +103,33 @@ CHECKS = {
     note="Trusted: interval domain; glyph ids are 16-bit (asserted at entry, part of the property's quantifier).",
  ),
  "C12": dict(
-    technique="must-reset field analysis over MIR (fields enumerated from the ADT), deep interior-mutability type walk, path-sensitive {Closed,Open} pen automaton with callee summaries, who-may-call",
+    technique="must-reset field analysis over MIR (fields enumerated from the ADT), deep interior-mutability type walk with who-writes / what-is-stored queries on the one memo, path-sensitive {Closed,Open} pen automaton with callee summaries, who-may-call, linear-form agreement between advertised and carved buffer sizes, write-before-read ordering rules",
     design_ref="DESIGN.md §4 C12",
     text="Decides: every field of glyf::HintInstance is re-derived by setup() on every path (Vec fields cleared before grown, "
          "scalars assigned; `instructions` via the checked chain reconfigure -> run_program(Font) -> Engine::reset -> both "
          "DefinitionMap::reset -> fill); every field of HintingInstance is re-derived before every Ok of reconfigure() and `kind` "
          "is None at every Err exit (reuse == fresh for every reconfigure history); draw entry points take &self and the only "
-         "interior mutability reachable from the shared types is the autohint metrics memo written only by its getter (no "
-         "history/thread dependence); to_path/contour_to_path/emit/finish emit move (seg)* close on every non-Err path; hinting "
-         "configuration reads the location only through effective_coords(). Not decided: finiteness of coordinates, that caller "
-         "scratch memory is initialised before it is read, buffer-size arithmetic.",
+         "interior mutability reachable from the shared types is the autohint metrics memo, written only by its getter and only "
+         "with Some(compute_unscaled_style_metrics(..)) (a memo of a pure function: no history/thread dependence); "
+         "to_path/contour_to_path/emit/finish emit move (seg)* close on every non-Err path; hinting configuration reads the "
+         "location only through effective_coords(); for each (hinted, has_variations) case the bytes carved by the scratch-memory "
+         "constructors equal (FreeType layout) or are below (HarfBuzz layout) the advertised size and the advertised slack "
+         "covers the total worst-case alignment padding; scratch delta buffers are zero-filled before accumulation and "
+         "composite deltas are read only where they were written. Not decided: finiteness of coordinates, initialisation of "
+         "the remaining scratch buffers.",
     note="Trusted: rustc MIR/type facts. Rust's borrow rules give 'draw(&self) cannot mutate non-interior fields'.",
  ),
  "C13": dict(
-    technique="path-sensitive typestate over MIR (push/pop stack automaton), dominator guards, recursion-idiom recogniser",
+    technique="path-sensitive typestate over MIR (push/pop stack automaton), dominator guards, recursion-idiom recogniser, instance-level call-graph SCCs over the colour code",
     design_ref="DESIGN.md §4 C13",
     text="All CFG paths of traverse_with_callbacks / ColorGlyph::paint / traverse_v0_range / ColorPainter default methods: "
          "every exit not classified Err has an empty LIFO-matched push/pop stack over the client painter (nested traversals "
          "balanced on Ok by induction); the glyph-fill optimiser forwards only fill_glyph; recursion depth parameter is "
          "guarded by a constant and incremented at all 7 self calls; calls on new paint-graph edges pass a guard from "
-         "Decycler::enter(..)?, whose write is bounds-guarded and whose guard drop decrements. Decides these structural "
-         "clauses for every paint graph; does not bound the number of visited nodes beyond depth <= 64.",
+         "Decycler::enter(..)?, whose write is bounds-guarded and whose guard drop decrements; every call-graph cycle touching "
+         "skrifa::color, the decycler or read-fonts' COLR code matches a bounded-recursion idiom (a new recursion that bypasses the "
+         "depth counter and the decycler is a violation). Decides these structural clauses for every paint graph; does not bound "
+         "the number of visited nodes beyond depth <= 64.",
     note="Trusted: rustc MIR construction, the fact dumper, the explorer. The embedder's painter is a black box (A-CB).",
  ),
  "C18": dict(
@@ -136,14 +155,19 @@ CHECKS = {
     note="Trusted: rustc MIR/type facts, call-graph construction (A-CB: no edges for embedder type parameters / std callbacks).",
  ),
  "C20": dict(
-    technique="interval analysis with guard refinement over MIR Assert terminators and overflow-inheriting std calls, inside declared zones",
+    technique="interval/relational abstract interpretation of MIR (Assert terminators, overflow-inheriting std calls, debug assertions): full discharge inside declared zones, whole-crate site census against a per-function baseline elsewhere; inferred struct-field invariants and who-writes counter census",
     design_ref="DESIGN.md §4 C20",
-    text="Claimed for declared zones only (the places whose own convention is explicit wrapping/saturating/checked arithmetic): "
-         "the fixed-point operator impls and mul_div in font-types, the core reader modules of read-fonts, and the TrueType "
-         "interpreter's arithmetic helpers (hint/math.rs, engine/arith.rs, engine/round.rs). In the strict profile "
-         "(-Coverflow-checks=on -Cdebug-assertions=on, mir-opt-level=0) every overflow/negate/shift/div/bounds Assert and every "
-         "overflow-inheriting std arithmetic call in these zones is discharged from type ranges, constants, widening casts and "
-         "dominating comparisons -- for every input value. Outside the zones (~1200 overflow sites) nothing is claimed.",
+    text="Two layers, both in the strict profile (-Coverflow-checks=on -Cdebug-assertions=on, mir-opt-level=0). (1) Declared zones "
+         "(the fixed-point operator impls and mul_div in font-types, the core reader modules of read-fonts, the TrueType "
+         "interpreter's arithmetic helpers hint/math.rs, engine/arith.rs, engine/round.rs): every overflow/negate/shift/div/bounds "
+         "Assert and every overflow-inheriting std arithmetic call is discharged for every input value. (2) Census of every "
+         "overflow/negate/shift Assert, abs/pow-style call and debug assertion in hand-written font-types, read-fonts, skrifa and "
+         "IFT code: each site is proved by the interval/relational analysis (type ranges, widening casts, guards, lengths, "
+         "counting loops, inferred struct-field invariants, 64-bit monotone counters under assumption A-STEPS) or is on the "
+         "baseline of sites that existed on the pinned tree (per function; untriaged = NOT claimed safe, many are genuinely "
+         "reachable overflows in the autohinter / CFF hinter / scaler) -- a new unproven site, or the loss of the guard that made "
+         "one provable, is a violation. So the check decides 'no new unchecked arithmetic on unbounded values', not the "
+         "absence of overflow in the baseline sites.",
     note="Trusted: rustc's placement of Assert terminators; the interval domain (sound over-approximation, widening at loop heads). Two genuine defects in the zones were repaired (F7, F8).",
  ),
 }
